@@ -622,7 +622,7 @@ func init() {
 	core.Register(&core.Check{
 		ID:    "C05",
 		Level: "model_checking",
-		Rule: "same enumerations as C04 with Distinct: table layer (grouper.Distinct under chosen hashes) and API layer (QFrame.Distinct with explicit columns, without columns, both Null settings, 5 index shapes). " +
+		Rule: "same enumerations as C04 with Distinct: table layer (grouper.Distinct under chosen hashes) and API layer (QFrame.Distinct with explicit columns, without columns, both Null settings, 7 index shapes). " +
 			"Non-trivial = colliding keys (table layer) / some but not all rows are duplicates (API layer).",
 		Assumptions: common,
 		Bound: map[string]string{
